@@ -23,4 +23,6 @@ let table : (Stdlib.String.t * (z list -> z list)) list = [
   "c14", c14_entry;
   "c13", c13_entry;
   "c13b", c13_entry;
+  "c15", c15_entry;
+  "c15c", c15_entry;
 ]
